@@ -102,7 +102,9 @@ def run(chk, orch):
             spec = workload.random_spec(chk.rng, "tiny" if k % 2 else "small")
             spec["n_exp"] = 1
             cell = common.random_cell(chk.rng)
-            a = {"spec": spec, "opts": common.cell_opts({"annotated": True}, cell), "sched": cell["sched"]}
+            # --check_canonical makes every spliced read's line depend on the reference sequence
+            spec["novel"] = max(1, spec.get("novel", 1))
+            a = {"spec": spec, "opts": common.cell_opts({"annotated": True, "check_canonical": True}, cell), "sched": cell["sched"]}
             orch.submit(cell["hashseed"], "scenarios:folder_reuse", a, tag=("f", k))
             freuse[k] = (a, cell)
         # BAM merger machine
